@@ -72,6 +72,10 @@ func c09NewEnv(contract types.Address) *c09Env {
 	e.as = account.NewAccountStore(contract, db.NewMemDB())
 	e.mom = &c09Momentum{height: verifNondetU64("frontier height"), ts: verifNondetU64("frontier timestamp")}
 	verifAssume(e.mom.height >= 2 && e.mom.height < 1<<60 && e.mom.ts >= 1600000000 && e.mom.ts < 1<<40, "frontier momentum: height in [2,2^60), time after 2020")
+	if k := verifParam("epochs", 0); k > 0 {
+		// bound for the reward Update loops: the frontier lies within the first k epochs after genesis
+		verifAssume(e.mom.ts < uint64(1600000000+k*86400), "frontier within the first k epochs (bounds the per-epoch reward loops)")
+	}
 	e.mom.sporks = [3]bool{verifNondetBool("accelerator spork active"), verifNondetBool("htlc spork active"), verifNondetBool("bridge spork active")}
 	e.ctx = vm_context.NewAccountContext(e.mom, e.as, &c09Pillars{})
 	return e
